@@ -178,6 +178,8 @@ def _text(I, tag, *args):
 
 def call(I, f, args, kwargs):
     args = [I.ctx.resolve(a) for a in args]
+    if isinstance(f, _Method):
+        return f(*args, **kwargs)  # a modelled method of an interpreter-level value
     # ---- constructors that must produce interpreter-level buffers even for concrete arguments
     if f is builtins.bytearray:
         return _mk_bytes(I, args, True)
@@ -253,6 +255,10 @@ def call(I, f, args, kwargs):
     if f is builtins.reversed:
         return list(reversed(list(_frame(I).iterate(args[0]))))
     if f in (builtins.list, builtins.tuple):
+        if args and isinstance(args[0], (SBuf, SZeros)) and isinstance(I.ctx.resolve(args[0].n), SInt) and (getattr(I.ctx, "range_bound", None) is not None or getattr(I.ctx, "summarise", False)):
+            # termination contracts over buffers of any length: the copy is a finite loop over the buffer; its contents
+            # do not matter there (as for a `for` over the buffer, see loops.make_for_hook)
+            return SOpaque("list-of-the-bytes-of-a-buffer-of-symbolic-length", args[0])
         return f(_frame(I).iterate(args[0])) if args else f()
     if f is builtins.enumerate:
         return list(enumerate(_frame(I).iterate(args[0]), *args[1:]))
@@ -580,6 +586,16 @@ def _sbytes_pad(obj, name, width, fill=b" "):
 
 
 def _sbytes_attr(I, obj, name):
+    if name == "join":
+        def join(parts):
+            cells = []
+            for i, p in enumerate(list(_frame(I).iterate(parts))):
+                if i:
+                    cells.extend(obj.cells)
+                cells.extend(list(p))
+            return SBytes(cells, obj.mutable)
+
+        return _Method(join, name)
     if name in ("ljust", "rjust", "center") and not obj.is_concrete():
         return _Method(lambda width, fill=b" ": _sbytes_pad(obj, name, width, fill), name)
     if name == "zfill" and not obj.is_concrete():
